@@ -691,7 +691,13 @@ pub fn compare(col: &mut Collector, chip: Chip, boost: bool, op: &Op, prior: &Ch
         Diff::Count(a, b) => (usize::MAX, usize::MAX, format!("transactions ours={} ref={}", a, b)),
     };
     let (cls, with_bytes) = op.sig_class(chip, t, j);
-    let where_ = if with_bytes { what.clone() } else { what.split(" ours=").next().unwrap_or("").to_string() };
+    let where_ = match op {
+        // multi-byte words whose first differing byte depends on the value
+        Op::Freq(_) => "pll-word".to_string(),
+        Op::Pkt { .. } if t == 0 && (j == 1 || j == 2) => "preamble-bytes".to_string(),
+        _ if with_bytes => what.clone(),
+        _ => what.split(" ours=").next().unwrap_or("").to_string(),
+    };
     col.violation(
         &format!("C13|sx126x/{}|{}|{}:{}", chipname, opname, cls, where_),
         "SPI transcript of lora-phy differs from the reference driver's",
